@@ -173,6 +173,19 @@ Definition get_record (s : mstate) (k : key) (db_fails : bool) : mstate * res re
     end
   end.
 
+(* get_committed: as get, but the open transaction's log is not consulted (requests read the epoch
+   record this way: what a publish has pending is not an epoch yet) *)
+Definition get_committed (s : mstate) (k : key) (db_fails : bool) : mstate * res record :=
+  match cache_get (m_cache s) k with
+  | Some r => (s, Ok r)
+  | None =>
+    if db_fails then (tick s, Err EOther)
+    else match kget (m_db s) k with
+         | Some r => (MS (m_db s) (cache_put (m_cache s) r) (m_active s) (m_mods s) (m_ops s + 1), Ok r)
+         | None => (tick s, Err ENotFound)
+         end
+  end.
+
 Fixpoint nodup_keys (ks : list key) : list key :=
   match ks with
   | [] => []
